@@ -93,8 +93,14 @@ def build(ctx, oq, rng, cfg):
         xf = (cx * sx).to(wd)
     else:
         row_mag = torch.from_numpy(np.exp(rng.uniform(np.log(1e-2), np.log(1e2), size=(N, 1))))
+        xmag = float(np.exp(rng.uniform(np.log(0.05), np.log(20))))
+        if rng.random() < 0.12:
+            # large activations on small weights: the product stays far inside the dtype's range, a sum accumulated in raw
+            # code units (before the weight scale is applied) would not in half precision
+            xmag = float(rng.choice([100.0, 250.0, 400.0]))
+            row_mag = row_mag.clamp(max=3e-2)
         wf = (torch.from_numpy(rng.standard_normal((N, K))) * row_mag).to(wd)
-        xf = (torch.from_numpy(rng.standard_normal(xshape)) * float(np.exp(rng.uniform(np.log(0.05), np.log(20))))).to(wd)
+        xf = (torch.from_numpy(rng.standard_normal(xshape)) * xmag).to(wd)
         sx = None
     # memory layout of the weight source: column-major storage (what a transposed checkpoint tensor looks like) keeps the
     # values; the quantized tensor inherits the strides
